@@ -58,7 +58,7 @@ def run(e: Engine, rep: Report):
     r85(e, rep)
     r86(e, rep)
     r87(e, rep)
-    rep.floor('R8.1', 2, 'socket swap sites')
+    rep.floor('R8.1', 1, 'socket swap sites')
 
 
 # ------------------------------------------------------------------ R8.1
@@ -69,10 +69,20 @@ def r81(e: Engine, rep: Report):
         if f.cls is None or not f.module.name.startswith('slimta.'):
             continue
         sn = f.self_name
+        def is_wrap(v, depth=0):
+            if isinstance(v, ast.Call) and isinstance(v.func, ast.Attribute) \
+                    and v.func.attr == 'wrap_socket':
+                return True
+            if isinstance(v, ast.Name) and depth < 2:
+                defs = [a.value for a in walk_own(f.node)
+                        if isinstance(a, ast.Assign) and any(
+                            isinstance(t, ast.Name) and t.id == v.id
+                            for t in a.targets)]
+                return bool(defs) and all(is_wrap(d, depth + 1)
+                                          for d in defs)
+            return False
         for n in walk_own(f.node):
-            if isinstance(n, ast.Assign) and isinstance(n.value, ast.Call) \
-                    and isinstance(n.value.func, ast.Attribute) and \
-                    n.value.func.attr == 'wrap_socket':
+            if isinstance(n, ast.Assign) and is_wrap(n.value):
                 for t in n.targets:
                     if isinstance(t, ast.Attribute) and \
                             isinstance(t.value, ast.Name) and \
@@ -553,22 +563,26 @@ def r86(e: Engine, rep: Report):
                   reason='single def from auth.server_attempt(arg)')
     # AuthSession.server_attempt returns what the mechanism produced
     ctx = e.method_ctx(AUTHS, 'server_attempt')
-    fn = ctx.func.node
-    rets = [n for n in walk_own(fn) if isinstance(n, ast.Return) and
-            n.value is not None]
-    ok = bool(rets)
-    for r in rets:
-        if not isinstance(r.value, ast.Name):
-            ok = False
-            continue
-        defs = [n for n in walk_own(fn) if isinstance(n, ast.Assign) and any(
-            isinstance(x, ast.Name) and x.id == r.value.id
-            for t in n.targets for x in ast.walk(t))]
-        if not defs or not all(
-                isinstance(d.value, ast.Call) and
-                isinstance(d.value.func, ast.Attribute) and
-                d.value.func.attr == 'server_attempt' for d in defs):
-            ok = False
+    ga = e.build(ctx, inline=e.inline_same_self(), max_depth=3,
+                 raises=lambda b, n, r: set())
+    roots = [n for n in ga.of_kind('stmt') if isinstance(n.ast, ast.Return)
+             and n.ast.value is not None and n.frame is ga.entry.frame]
+    ok = bool(roots)
+    for r in roots:
+        for v, fr in common.values_of(ga, r.ast.value, r.frame):
+            if not isinstance(v, ast.Name):
+                ok = False
+                continue
+            defs = [s2 for s2 in ga.of_kind('stmt') if s2.frame is fr and
+                    isinstance(s2.ast, ast.Assign) and any(
+                        isinstance(x, ast.Name) and x.id == v.id
+                        for t in s2.ast.targets for x in ast.walk(t))]
+            if not defs or not all(
+                    isinstance(d.ast.value, ast.Call) and
+                    isinstance(d.ast.value.func, ast.Attribute) and
+                    d.ast.value.func.attr == 'server_attempt'
+                    for d in defs):
+                ok = False
     rep.evaluations += 1
     rep.check(ok, 'R8.6', ctx.func.qname,
               'server_attempt returns the mechanism result unmodified',
